@@ -45,7 +45,7 @@ _ALARM = False       # set in worker processes: `tool()` arms a 120 s alarm arou
 
 # =============================================================================== (a) synthetic streams
 def synthetic(ctx: Ctx) -> None:
-    n = ctx.pick(3000, 30000)
+    n = ctx.pick(2500, 30000)
     cases = [gen.gen_stream(ctx.rng, malformed=(i % 6 == 5)) for i in range(n)]
     lines = [json.dumps(["stream"] + evs) for evs, _ in cases]
     model = ctx.lean_driver(DRIVER, lines)
@@ -526,7 +526,7 @@ def classify_delta(probs: list[dict], texts: dict[str, str] | None = None) -> st
 def real_runs(ctx: Ctx) -> None:
     t0 = time.time()
     cases = corpus.corpus_cases(ctx.rng)
-    ncorp = ctx.pick(260, len(cases))
+    ncorp = ctx.pick(200, len(cases))
     ntext = ctx.pick(50, 300)
     progs = cases[:ncorp] + corpus.gen_text_programs(ctx.rng, ntext)
     nvar = ctx.pick(4, 6)
